@@ -5,6 +5,8 @@ Correspondence: `toposort_edges` and `PAFScorer(...).sorted_edge_inds` (real cod
 networkx) vs the Lean driver on the same edge listings, compared exactly.
 """
 import itertools
+import json
+import os
 
 from common import Check, call, import_repo, lst, run_check, run_driver
 
@@ -114,87 +116,82 @@ def oracle(edges, order):
     return None
 
 
-def main(chk: Check):
-    chk.build_and_audit()
-    import_repo()
-    from sleap_nn.inference.paf_grouping import EdgeType, PAFScorer, toposort_edges
+class Impl:
+    """The real code, loaded once (after import_repo())."""
 
-    def impl(edges):
-        r = call(toposort_edges, [EdgeType(u, v) for u, v in edges])
+    def __init__(self):
+        import numpy as np
+        import torch
+        import sleap_nn.inference.paf_grouping as pg
+        from omegaconf import OmegaConf
+
+        self.np, self.torch, self.pg, self.OmegaConf = np, torch, pg, OmegaConf
+
+    def toposort(self, edges):
+        r = call(self.pg.toposort_edges, [self.pg.EdgeType(u, v) for u, v in edges])
         return "raise" if r[0] == "raise" else "ok " + " ".join(str(int(i)) for i in r[1])
 
-    def impl_scorer(edges):
-        nodes = sorted({x for e in edges for x in e})
-        names = [f"n{v}" for v in nodes]
-        r = call(lambda: PAFScorer(part_names=names, edges=[(f"n{u}", f"n{v}") for u, v in edges],
-                                   pafs_stride=2).sorted_edge_inds)
-        if r[0] == "raise":
-            return "raise", None
-        # the scorer re-indexes nodes by position in part_names: same tree, different numbering
-        return "ok " + " ".join(str(int(i)) for i in r[1]), [(nodes.index(u), nodes.index(v)) for u, v in edges]
+    def scorer(self, edges, names_order, via_config):
+        """PAFScorer built the two public ways; `names_order` is the order of part_names (the scorer
+        re-indexes nodes by position in part_names).  Returns (scorer, re-indexed edges)."""
+        names = [f"n{v}" for v in names_order]
+        e_names = [(f"n{u}", f"n{v}") for u, v in edges]
+        if via_config:
+            cfg = self.OmegaConf.create({"confmaps": {"part_names": names},
+                                         "pafs": {"edges": [list(e) for e in e_names], "output_stride": 2}})
+            sc = self.pg.PAFScorer.from_config(cfg)
+        else:
+            sc = self.pg.PAFScorer(part_names=names, edges=e_names, pafs_stride=2)
+        return sc, [(names_order.index(u), names_order.index(v)) for u, v in edges]
 
-    import numpy as np
-    import sleap_nn.inference.paf_grouping as pg
-
-    def impl_grouping(edges, n_animals):
-        """The order actually USED for grouping: run the real group_instances_sample on a frame
-        with `n_animals` complete animals (one peak per node each, every edge matched with score 1)
-        and record the key order of the `connections` dict it hands to
-        assign_connections_to_instances.  Returns (order used as edge indices, n instances, n NaN)."""
-        nodes = sorted({x for e in edges for x in e})
-        names = [f"n{v}" for v in nodes]
-        scorer = PAFScorer(part_names=names, edges=[(f"n{u}", f"n{v}") for u, v in edges], pafs_stride=2)
-        n = len(nodes)
-        peaks = np.array([[10.0 * c + a, 7.0 * a] for c in range(n) for a in range(n_animals)], dtype="float32")
-        vals = np.ones(len(peaks), dtype="float32")
-        chan = np.array([c for c in range(n) for a in range(n_animals)], dtype="int64")
-        m_edge = np.array([k for k in range(len(edges)) for a in range(n_animals)], dtype="int64")
-        m_src = np.array([a for k in range(len(edges)) for a in range(n_animals)], dtype="int64")
-        m_dst = m_src.copy()
-        m_score = np.ones(len(m_edge), dtype="float32")
-        used = []
-        orig = pg.assign_connections_to_instances
+    def _spy(self, scorer, used):
+        orig = self.pg.assign_connections_to_instances
 
         def spy(connections, *a, **k):
             used.append([scorer.edge_types.index(et) for et in connections.keys()])
             return orig(connections, *a, **k)
 
+        return orig, spy
+
+    def grouping(self, scorer, n_edges, n_animals):
+        """Order actually USED by group_instances_sample on a frame with `n_animals` complete animals
+        (one peak per node each, every edge matched with score 1): key order of the `connections` dict
+        handed to assign_connections_to_instances.  Returns (order, n instances, n missing nodes)."""
+        np, pg = self.np, self.pg
+        n = scorer.n_nodes
+        peaks = np.array([[10.0 * c + a, 7.0 * a] for c in range(n) for a in range(n_animals)], dtype="float32")
+        vals = np.ones(len(peaks), dtype="float32")
+        chan = np.array([c for c in range(n) for a in range(n_animals)], dtype="int64")
+        m_edge = np.array([k for k in range(n_edges) for a in range(n_animals)], dtype="int64")
+        m_src = np.array([a for k in range(n_edges) for a in range(n_animals)], dtype="int64")
+        m_score = np.ones(len(m_edge), dtype="float32")
+        used = []
+        orig, spy = self._spy(scorer, used)
         pg.assign_connections_to_instances = spy
         try:
-            inst, _, _ = pg.group_instances_sample(peaks, vals, chan, m_edge, m_src, m_dst, m_score, n,
+            inst, _, _ = pg.group_instances_sample(peaks, vals, chan, m_edge, m_src, m_src.copy(), m_score, n,
                                                    scorer.sorted_edge_inds, scorer.edge_types, 0, 0.25)
         finally:
             pg.assign_connections_to_instances = orig
         return used[0], int(inst.shape[0]), int(np.isnan(inst).any(axis=-1).sum())
 
-    import torch
-
-    def impl_grouping_batch(edges, n_samples):
-        """Same observation through the batch entry point (PAFScorer.group_instances →
-        group_instances_batch): every sample of the batch must be grouped in the model's order and
-        come out whole.  One complete animal per sample."""
-        nodes = sorted({x for e in edges for x in e})
-        names = [f"n{v}" for v in nodes]
-        scorer = PAFScorer(part_names=names, edges=[(f"n{u}", f"n{v}") for u, v in edges], pafs_stride=2)
-        n = len(nodes)
+    def grouping_batch(self, scorer, n_edges, n_samples):
+        """Same through the batch entry point PAFScorer.group_instances → group_instances_batch: every
+        sample (one complete animal each) must be grouped in the model's order and come out whole."""
+        np, torch, pg = self.np, self.torch, self.pg
+        n = scorer.n_nodes
         nt = lambda xs, dt: torch.nested.nested_tensor([torch.tensor(x, dtype=dt) for x in xs])
         peaks = nt([[[10.0 * c + b, 3.0 * b] for c in range(n)] for b in range(n_samples)], torch.float32)
         vals = nt([[1.0] * n for _ in range(n_samples)], torch.float32)
         chan = nt([list(range(n)) for _ in range(n_samples)], torch.int32)
-        m_edge = nt([list(range(len(edges))) for _ in range(n_samples)], torch.int32)
-        m_src = nt([[0] * len(edges) for _ in range(n_samples)], torch.int32)
-        m_dst = nt([[0] * len(edges) for _ in range(n_samples)], torch.int32)
-        m_score = nt([[1.0] * len(edges) for _ in range(n_samples)], torch.float32)
+        m_edge = nt([list(range(n_edges)) for _ in range(n_samples)], torch.int32)
+        zeros = nt([[0] * n_edges for _ in range(n_samples)], torch.int32)
+        m_score = nt([[1.0] * n_edges for _ in range(n_samples)], torch.float32)
         used = []
-        orig = pg.assign_connections_to_instances
-
-        def spy(connections, *a, **k):
-            used.append([scorer.edge_types.index(et) for et in connections.keys()])
-            return orig(connections, *a, **k)
-
+        orig, spy = self._spy(scorer, used)
         pg.assign_connections_to_instances = spy
         try:
-            inst, _, _ = scorer.group_instances(peaks, vals, chan, m_edge, m_src, m_dst, m_score)
+            inst, _, _ = scorer.group_instances(peaks, vals, chan, m_edge, zeros, zeros, m_score)
         finally:
             pg.assign_connections_to_instances = orig
         per_sample = []
@@ -203,108 +200,158 @@ def main(chk: Check):
             per_sample.append((int(x.shape[0]), int(np.isnan(x).any(axis=-1).sum())))
         return used, per_sample
 
+
+def model_of(edge_lists):
+    return run_driver("C17.lean", ["toposort " + lst(edges, lambda e: f"{e[0]} {e[1]}") for edges in edge_lists])
+
+
+def is_tree_kind(kind):
+    return not kind.startswith(("forest", "dag", "cycle", "no_root", "empty", "self", "reversed"))
+
+
+def plan_extras(rng, idx, edges):
+    """Deterministic (from rng) choice of the glue observations made for one tree listing."""
+    nodes = sorted({x for e in edges for x in e})
+    order = nodes[:]
+    if rng.random() < 0.5:
+        rng.shuffle(order)
+    return {"names_order": order, "via_config": rng.random() < 0.5,
+            "animals": 1 + rng.randrange(3), "batch": rng.choice([0, 2, 3, 4])}
+
+
+def check_case(chk: Check, impl: Impl, kind, edges, m, extras, m_re=None):
+    """All observations for one listing.  `m` = model answer for `edges`; `extras` (or None) selects
+    the scorer / grouping observations; `m_re` = model answer for the scorer's re-indexed edges."""
+    i = impl.toposort(edges)
+    if i != m:
+        chk.disagree("toposort_edges == Toposort.toposort", {"kind": kind, "edges": edges}, i, m)
+    if not is_tree_kind(kind):
+        return i
+    why = "raised" if i == "raise" else oracle(edges, [int(x) for x in i.split()[1:]])
+    if why:
+        chk.fail(f"C17 fails on toposort_edges: {why}", {"kind": kind, "edges": edges}, i)
+    if not extras:
+        return i
+    case = {"kind": kind, "edges": edges, "extras": extras}
+    r = call(impl.scorer, edges, extras["names_order"], extras["via_config"])
+    if r[0] == "raise":
+        chk.fail(f"PAFScorer construction raised on a tree skeleton: {r[1:]}", case, r)
+        return i
+    scorer, re_edges = r[1]
+    si = "ok " + " ".join(str(int(x)) for x in scorer.sorted_edge_inds)
+    if m_re is None:
+        m_re = model_of([re_edges])[0]
+    if si != m_re:
+        chk.disagree("PAFScorer.sorted_edge_inds == Toposort.toposort (re-indexed edges)", case, si, m_re)
+    why = oracle(re_edges, [int(x) for x in scorer.sorted_edge_inds])
+    if why:
+        chk.fail(f"C17 fails on PAFScorer.sorted_edge_inds: {why}", case, si)
+    g = call(impl.grouping, scorer, len(edges), extras["animals"])
+    if g[0] == "raise":
+        chk.fail(f"grouping raised on complete animals of a tree skeleton: {g[1:]}", case, g)
+    else:
+        used, n_inst, n_nan = g[1]
+        gm = "ok " + " ".join(map(str, used))
+        if gm != m_re:
+            chk.disagree("edge order used by group_instances_sample == Toposort.toposort", case, gm, m_re)
+        why = oracle(re_edges, used)
+        if why:
+            chk.fail(f"C17 fails on the order used for grouping: {why}", case, gm)
+        if n_inst != extras["animals"] or n_nan != 0:
+            chk.fail(f"body parts left ungrouped: {extras['animals']} complete animals grouped into {n_inst} instances "
+                     f"with {n_nan} missing nodes", case, {"order_used": used})
+    nb = extras["batch"]
+    if nb:
+        gb = call(impl.grouping_batch, scorer, len(edges), nb)
+        if gb[0] == "raise":
+            chk.fail(f"batch grouping raised on complete animals of a tree skeleton: {gb[1:]}", case, gb)
+        else:
+            used_b, per_sample = gb[1]
+            for b in range(nb):
+                gmb = "ok " + " ".join(map(str, used_b[b])) if b < len(used_b) else "missing"
+                if gmb != m_re:
+                    chk.disagree("edge order used by group_instances_batch (every sample) == Toposort.toposort",
+                                 {**case, "sample": b}, gmb, m_re)
+                if b >= len(per_sample) or per_sample[b] != (1, 0):
+                    chk.fail(f"body parts left ungrouped in sample {b} of a batch of {nb}: (instances, missing nodes) = "
+                             f"{per_sample[b] if b < len(per_sample) else None}, expected (1, 0)",
+                             {**case, "sample": b}, {"order_used": used_b})
+    return i
+
+
+def main(chk: Check):
+    chk.build_and_audit()
+    import_repo()
+    impl = Impl()
     cases = []  # (kind, edges)
     rng = chk.rng
     # corpus / fixed regression cases first
     cases.append(("suite_example", [(2, 3), (0, 1), (1, 2), (1, 4)]))
     cases.append(("two_nodes", [(5, 2)]))
+    cases.append(("seed_C17_m1", [(1, 2), (0, 1)]))
+    cases.append(("seed_C17_r2m1", [(0, 2), (1, 0)]))
+    cases.append(("seed_C17_r2m2", [(2, 0), (0, 1)]))
+    cases.append(("seed_C17_r3m3", [(2, 3), (1, 2), (0, 1)]))
+    for n in range(2, 6 if chk.thorough else 5):
+        for edges, _ in all_rooted_trees(n):
+            for perm in itertools.permutations(edges):
+                cases.append((f"exh{n}", list(perm)))
     if chk.thorough:
-        for n in range(2, 6):
-            for edges, _ in all_rooted_trees(n):
-                for perm in itertools.permutations(edges):
-                    cases.append((f"exh{n}", list(perm)))
+        exh6 = os.environ.get("VERIF_C17_EXH6", "1") == "1"
         for edges, _ in all_rooted_trees(6):
-            for _ in range(12):
-                p = edges[:]
-                rng.shuffle(p)
-                cases.append(("exh6_sampled_listing", p))
-    else:
-        for n in range(2, 5):
-            for edges, _ in all_rooted_trees(n):
+            if exh6:
                 for perm in itertools.permutations(edges):
-                    cases.append((f"exh{n}", list(perm)))
-    for _ in range(chk.n(600, 60000)):
+                    cases.append(("exh6", list(perm)))
+            else:
+                for _ in range(12):
+                    q = edges[:]
+                    rng.shuffle(q)
+                    cases.append(("exh6_sampled_listing", q))
+    for _ in range(chk.n(600, 40000)):
         n = rng.choice([2, 3, 4, 5, 6, 7, 7, 7, 7, 8, 12, 20, 40] if chk.thorough else [2, 3, 4, 5, 6, 7, 7, 8, 12, 20])
         cases.append((f"rand{n}", random_tree(rng, n)[0]))
     for _ in range(chk.n(200, 2000)):
         cases.append(malformed(rng))
 
-    lines = ["toposort " + lst(edges, lambda e: f"{e[0]} {e[1]}") for _, edges in cases]
-    model = run_driver("C17.lean", lines)
+    # glue observations: every case in quick's small sets, a sample of the big thorough sets
+    extras_every = 3 if not chk.thorough else 25
+    plans = {}
+    for idx, (kind, edges) in enumerate(cases):
+        if is_tree_kind(kind) and edges and (idx % extras_every == 0 or kind.startswith(("suite", "two", "seed"))):
+            plans[idx] = plan_extras(rng, idx, edges)
+    re_lists = {idx: [(pl["names_order"].index(u), pl["names_order"].index(v)) for u, v in cases[idx][1]]
+                for idx, pl in plans.items()}
+    model = model_of([e for _, e in cases])
+    order_idx = sorted(re_lists)
+    model_re = dict(zip(order_idx, model_of([re_lists[k] for k in order_idx]))) if order_idx else {}
 
-    scorer_every = 1 if chk.thorough else 3
     for idx, ((kind, edges), m) in enumerate(zip(cases, model)):
-        i = impl(edges)
-        is_tree = not kind.startswith(("forest", "dag", "cycle", "no_root", "empty", "self", "reversed"))
+        pl = plans.get(idx)
+        tags = [kind.rstrip("0123456789")]
+        if pl:
+            tags += [f"batch{pl['batch']}", f"animals{pl['animals']}", "from_config" if pl["via_config"] else "ctor",
+                     "names_shuffled" if pl["names_order"] != sorted(pl["names_order"]) else "names_sorted"]
+        i = check_case(chk, impl, kind, edges, m, pl, model_re.get(idx))
         chk.case((kind.rstrip("0123456789"), tuple(edges)) if edges else None,
-                 {"kind": kind, "edges": edges, "impl": i, "model": m}, tags=[kind])
-        bad = i != m
-        if bad:
-            chk.disagree("toposort_edges == Toposort.toposort", {"kind": kind, "edges": edges}, i, m)
-        if is_tree:
-            # the theorems apply: evaluate the property itself on the implementation
-            why = "raised" if i == "raise" else oracle(edges, [int(x) for x in i.split()[1:]])
-            if why:
-                chk.fail(f"C17 fails on toposort_edges: {why}", {"edges": edges}, i)
-            if idx % scorer_every == 0:
-                si, re_edges = impl_scorer(edges)
-                if si == "raise":
-                    chk.fail("PAFScorer construction raised on a tree skeleton", {"edges": edges}, si)
-                else:
-                    why = oracle(re_edges, [int(x) for x in si.split()[1:]])
-                    if why:
-                        chk.fail(f"C17 fails on PAFScorer.sorted_edge_inds: {why}", {"edges": edges}, si)
-                    if si != i:
-                        # renumbering nodes keeps listing order, hence (model fact) the same index order
-                        chk.disagree("PAFScorer.sorted_edge_inds == toposort_edges", {"edges": edges}, si, i)
-                na = 1 + idx % 2
-                g = call(impl_grouping, edges, na)
-                if g[0] == "raise":
-                    chk.fail(f"grouping raised on complete animals of a tree skeleton: {g[1:]}", {"edges": edges, "animals": na}, g)
-                else:
-                    used, n_inst, n_nan = g[1]
-                    gm = "ok " + " ".join(map(str, used))
-                    if gm != m:
-                        chk.disagree("edge order used by group_instances_sample == Toposort.toposort", {"edges": edges}, gm, m)
-                    why = oracle(re_edges or edges, used) if si != "raise" else None
-                    if why:
-                        chk.fail(f"C17 fails on the order used for grouping: {why}", {"edges": edges}, gm)
-                    if n_inst != na or n_nan != 0:
-                        chk.fail(f"body parts left ungrouped: {na} complete animals grouped into {n_inst} instances with {n_nan} missing nodes",
-                                 {"edges": edges, "animals": na}, {"order_used": used})
-                if idx % (2 * scorer_every) == 0:
-                    nb = 2 + idx % 2
-                    gb = call(impl_grouping_batch, edges, nb)
-                    if gb[0] == "raise":
-                        chk.fail(f"batch grouping raised on complete animals of a tree skeleton: {gb[1:]}", {"edges": edges, "batch": nb}, gb)
-                    else:
-                        used_b, per_sample = gb[1]
-                        for b in range(nb):
-                            gmb = "ok " + " ".join(map(str, used_b[b])) if b < len(used_b) else "missing"
-                            if gmb != m:
-                                chk.disagree("edge order used by group_instances_batch (every sample) == Toposort.toposort",
-                                             {"edges": edges, "sample": b, "batch": nb}, gmb, m)
-                            if b >= len(per_sample) or per_sample[b] != (1, 0):
-                                chk.fail(f"body parts left ungrouped in sample {b} of a batch of {nb}: "
-                                         f"(instances, missing nodes) = {per_sample[b] if b < len(per_sample) else None}, expected (1, 0)",
-                                         {"edges": edges, "batch": nb, "sample": b}, {"order_used": used_b})
+                 {"kind": kind, "edges": edges, "impl": i, "model": m, "extras": pl}, tags=tags)
 
 
 def replay(chk: Check, payload):
+    """Re-executes every observation for the recorded listing (toposort_edges, both PAFScorer
+    constructors, sample and batch grouping) with the recorded choices when present."""
     import_repo()
-    from sleap_nn.inference.paf_grouping import EdgeType, toposort_edges
-
-    edges = [tuple(e) for e in (payload.get("case") or payload["disagreements"][0]["case"])["edges"]]
-    r = call(toposort_edges, [EdgeType(u, v) for u, v in edges])
-    m = run_driver("C17.lean", ["toposort " + lst(edges, lambda e: f"{e[0]} {e[1]}")])[0]
-    i = "raise" if r[0] == "raise" else "ok " + " ".join(str(int(x)) for x in r[1])
-    print(f"replay edges={edges} impl={i} model={m}")
-    chk.case(tuple(edges))
-    if i != m:
-        chk.disagree("toposort_edges == Toposort.toposort", {"edges": edges}, i, m)
-    why = "raised" if i == "raise" else oracle(edges, [int(x) for x in i.split()[1:]])
-    if why:
-        chk.fail(f"C17 fails on toposort_edges: {why}", {"edges": edges}, i)
+    impl = Impl()
+    case = payload.get("case") or payload["disagreements"][0]["case"]
+    edges = [tuple(e) for e in case["edges"]]
+    kind = case.get("kind", "replay")
+    nodes = sorted({x for e in edges for x in e})
+    plans = [case["extras"]] if case.get("extras") else [
+        {"names_order": nodes, "via_config": v, "animals": a, "batch": b} for v, a, b in [(False, 1, 2), (True, 2, 3), (False, 3, 4)]]
+    m = model_of([edges])[0]
+    for pl in plans:
+        i = check_case(chk, impl, kind, edges, m, pl)
+        chk.case((kind, tuple(edges), json.dumps(pl, sort_keys=True)))
+        print(f"replay edges={edges} extras={pl} toposort_edges={i} model={m}")
 
 
 if __name__ == "__main__":
@@ -316,9 +363,12 @@ if __name__ == "__main__":
             "hand-written model Toposort.lean of toposort_edges; tied to /repo by exact comparison on the explored listings only",
             "networkx DiGraph insertion order, topological_sort first element, bfs_edges order: modelled, validated by the correspondence",
         ],
-        rule="rooted labelled trees (exhaustive up to 4 nodes x all listings in quick, 5 in thorough, all 6-node trees "
-             "with sampled listings in thorough; random shapes path/star/bushy/uniform up to 20 nodes with random labels "
-             "and listings) + malformed digraphs; distinct = distinct (kind, edge listing); trivial = empty listing",
+        rule="rooted labelled trees: exhaustive up to 4 nodes x all listings in quick; up to 6 nodes x ALL listings in "
+             "thorough (933k listings at 6 nodes); random shapes path/star/bushy/uniform up to 20 (40) nodes with random "
+             "labels and listings; malformed digraphs (forest, DAG, cycle, no root, self-loop, reversed edge, empty); for a "
+             "sample of tree listings the glue is observed too: PAFScorer via constructor / from_config with sorted or "
+             "shuffled part_names, order used by group_instances_sample (1-3 animals) and by group_instances_batch "
+             "(2-4 samples); distinct = distinct (kind, edge listing); trivial = empty listing",
         assumptions=["duplicate edges in a listing are outside the model (DiGraph merges them); generator never emits them"],
     )
     run_check(chk, main, replay)
